@@ -933,7 +933,7 @@ func c18Watcher(res *Result) {
 	steps := []struct {
 		state  int
 		rename bool
-	}{{8 | 1 | 2 | 4, false}, {8 | 1, false}, {0, false}, {8 | 4, false}, {8 | 1 | 2, true}, {8 | 2, true}, {8 | 2 | 4, false}}
+	}{{8 | 1 | 2 | 4, false}, {8 | 1, false}, {0, false}, {8 | 4, false}, {8 | 1 | 2, true}, {8 | 2, true}, {8 | 2 | 4, false}, {23, false}, {8 | 1, false}, {24, true}, {17, false}}
 	for i, st := range steps {
 		if st.rename {
 			tmp := file + ".tmp"
